@@ -16,7 +16,7 @@ from ..core import product
 from ..env import scratch_dir
 
 STARTS = [datetime.date(2019, 12, 24), datetime.date(2020, 2, 24), datetime.date(2020, 6, 29), datetime.date(2021, 1, 1)]
-STEPS_QUICK = ['0.8', '1', '1.25', '1.5']
+STEPS_QUICK = ['0.8', '1', '1.25', '2']
 STEPS_THOROUGH = STEPS_QUICK + ['0.5']
 PERIODS = 252
 TOL = 1e-9
@@ -309,7 +309,7 @@ def run(tier, res, is_known):
     import qstrader.statistics.json_statistics  # noqa: import the heavy plotting stack once, before forking
     import qstrader.statistics.tearsheet  # noqa
     its = items(tier)
-    res.rule = ('every equity curve grown from 100 by a step alphabet (x0.8, x1, x1.25, x1.5%s) up to %d observations '
+    res.rule = ('every equity curve grown from 100 by a step alphabet (x0.8, x1, x1.25, x2%s) up to %d observations '
                 '(prefix-closed: every prefix of length >= 2 is itself a point) on 4 business-day calendars crossing a '
                 'year end / leap-day month end / mid-year month end / new year: real performance functions, JSONStatistics '
                 '(incl. to_file + reload) and TearsheetStatistics.get_results vs list-based definitions; metamorphic x2 '
